@@ -88,6 +88,7 @@ class Explorer:
                 self.listener.close()
             except Exception:
                 pass
+            user_like_warning_state()
             cells = snapshot.cells({})
             # the root reports its own snapshot as a 'result' so the coordinator learns the initial digest
             signal.signal(signal.SIGCHLD, signal.SIG_IGN)
@@ -174,6 +175,18 @@ class Explorer:
         shutil.rmtree(self.dir, ignore_errors=True)
 
 
+def user_like_warning_state():
+    """Histories run under the interpreter's DEFAULT warning machinery (numpy errstate 'warn', Python's default filters), as
+    a user's script would: a library call that installs an 'error' filter or changes numpy's error state then changes what
+    later calls do, which is what C06 must see.  (The engine's workers silence numpy for the lattice checks; output is
+    discarded at file-descriptor level either way.)"""
+    import warnings
+    import numpy as np
+    np.seterr(divide="warn", over="warn", under="ignore", invalid="warn")
+    warnings.resetwarnings()
+    warnings.simplefilter("default")
+
+
 def bfs(opsmod, alphabet, depth_cap, on_transition, log=None):
     """Breadth-first search to closure (or depth_cap) over histories of `alphabet`.
 
@@ -233,6 +246,7 @@ def run_in_fork(opsmod, ops):
         out = []
         try:
             live = {}
+            user_like_warning_state()
             prev = snapshot.cells(live)
             for op in ops:
                 obs = opsmod.apply_op(live, op)
@@ -268,11 +282,10 @@ def _ref_main(argv):
     ops = json.loads(sys.stdin.read())
     import contextlib
     import io
-    import numpy as np
-    np.seterr(all="ignore")
+    user_like_warning_state()
     live = {}
     out = []
-    with contextlib.redirect_stdout(io.StringIO()):
+    with contextlib.redirect_stdout(io.StringIO()), contextlib.redirect_stderr(io.StringIO()):
         for op in ops:
             out.append(opsmod.apply_op(live, op))
     print("XPMC-REF " + json.dumps(out))
